@@ -207,10 +207,11 @@ Theorem rc4_involutive k d : RC4.rc4 k (RC4.rc4 k d) = d.
 Proof. apply rc4_prga_involutive. Qed.
 
 Theorem rc4_roundtrip key usage conf msg ct :
-  length conf = 8%nat ->
+  length conf = 8%nat -> length key = 16%nat ->
   encrypt_with 23 key usage conf msg = Ok ct -> decrypt 23 key usage ct = Ok msg.
 Proof.
-  intros Hc. unfold encrypt_with, decrypt. change (et_family 23) with (Some FRc4). cbv iota.
+  intros Hc Hk. unfold encrypt_with, decrypt. change (et_family 23) with (Some FRc4). cbv iota.
+  change (key_len 23) with 16%nat. rewrite Hk. cbn [Nat.eqb negb].
   assert (rc4_encrypt key usage conf msg = Ok ct -> rc4_decrypt key usage ct = Ok msg) as R.
   { unfold rc4_encrypt, rc4_decrypt.
     set (k2 := HMAC.hmac_md5 key (rc4_msg_type usage)).
@@ -221,7 +222,7 @@ Proof.
     destruct (Nat.ltb_spec (16 + (8 + length msg)) 24); [lia|].
     rewrite <- Lchk. rewrite firstn_app_exact, skipn_app_exact.
     rewrite rc4_involutive. rewrite beq_bytes_refl. rewrite <- Hc, skipn_app_exact. reflexivity. }
-  destruct (negb (length key =? 16)%nat); exact R.
+  exact R.
 Qed.
 
 (* Acceptance set: decryption succeeds only when the trailing MAC equals the integrity hash the RFC defines. *)
@@ -232,7 +233,7 @@ Theorem decrypt_accepts_only_valid_mac et key usage ct m :
   | Some FAesSha1 => exists ke pt, derive_key et key (usage_const usage 170) = Ok ke /\
       cts_decrypt (aes_ecb_dec ke) (firstn n ct) = Ok pt /\
       integrity_hash et key usage pt = Ok (skipn n ct) /\ m = skipn 16 pt
-  | Some FAesSha2 => exists ke pt, derive_key et key (usage_const usage 170) = Ok ke /\
+  | Some FAesSha2 => length key = key_len et /\ exists ke pt, derive_key et key (usage_const usage 170) = Ok ke /\
       cts_decrypt (aes_ecb_dec ke) (firstn n ct) = Ok pt /\
       integrity_hash et key usage (zeros 16 ++ firstn n ct) = Ok (skipn n ct) /\ m = skipn 16 pt
   | Some FDes3 => exists ke, derive_key et key (usage_const usage 170) = Ok ke /\
@@ -241,7 +242,7 @@ Theorem decrypt_accepts_only_valid_mac et key usage ct m :
   | Some FRc4 =>
       let k2 := HMAC.hmac_md5 key (rc4_msg_type usage) in
       let pt := RC4.rc4 (HMAC.hmac_md5 k2 (firstn 16 ct)) (skipn 16 ct) in
-      HMAC.hmac_md5 k2 pt = firstn 16 ct /\ m = skipn 8 pt
+      length key = key_len et /\ HMAC.hmac_md5 k2 pt = firstn 16 ct /\ m = skipn 8 pt
   | None => False
   end.
 Proof.
@@ -252,20 +253,22 @@ Proof.
     destruct (integrity_hash et key usage pt) as [ih| |] eqn:Ei; cbn [bind]; try discriminate.
     destruct (beq_bytes ih _) eqn:B; [|discriminate]. apply beq_bytes_eq in B. subst ih.
     intros H. injection H as <-. exists ke, pt. repeat split; assumption.
-  - destruct (_ <? _)%nat; [discriminate|].
+  - destruct (Nat.eqb_spec (length key) (key_len et)) as [Hk|]; cbn [negb]; [|discriminate].
+    destruct (_ <? _)%nat; [discriminate|].
     destruct (derive_key et key _) as [ke| |]; cbn [bind]; try discriminate.
     destruct (cts_decrypt _ _) as [pt| |] eqn:Ec; cbn [bind]; try discriminate.
     destruct (integrity_hash et key usage _) as [ih| |] eqn:Ei; cbn [bind]; try discriminate.
     destruct (beq_bytes ih _) eqn:B; [|discriminate]. apply beq_bytes_eq in B. subst ih.
-    intros H. injection H as <-. exists ke, pt. repeat split; assumption.
+    intros H. injection H as <-. split; [exact Hk|]. exists ke, pt. repeat split; assumption.
   - destruct (_ <? _)%nat; [discriminate|].
     destruct (derive_key et key _) as [ke| |]; cbn [bind]; try discriminate.
     destruct (negb _); [discriminate|].
     destruct (integrity_hash et key usage _) as [ih| |] eqn:Ei; cbn [bind]; try discriminate.
     destruct (beq_bytes ih _) eqn:B; [|discriminate]. apply beq_bytes_eq in B. subst ih.
     intros H. injection H as <-. exists ke. repeat split; assumption.
-  - unfold rc4_decrypt. destruct (_ <? _)%nat; [discriminate|].
+  - destruct (Nat.eqb_spec (length key) (key_len et)) as [Hk|]; cbn [negb]; [|discriminate].
+    unfold rc4_decrypt. destruct (_ <? _)%nat; [discriminate|].
     destruct (beq_bytes _ _) eqn:B; [|discriminate]. apply beq_bytes_eq in B.
-    intros H. injection H as <-. split; [exact B|reflexivity].
+    intros H. injection H as <-. split; [exact Hk|]. split; [exact B|reflexivity].
   - discriminate.
 Qed.
